@@ -166,6 +166,25 @@ def run(F, rep):
                        detail="builder chain: %s%s" % (chain[:160], "" if safe else "; an older, longer file at the path keeps its tail, and the reader takes the directory from the last 8 bytes"),
                        site=site_of(f, t), key="C13-OPEN | %s | open for writing" % f.key)
     rep.floor("C13-OPEN", nop, 1, "places where the container opens a file for writing")
+    # (CUR) random access does not move the sequential cursor: cur_id is written only by the sequential reader (get_part),
+    # by open/deserialize (reset) and by rewind helpers - never by get_part_by_id or the code it calls
+    gpid = F.funcs.get(ARCH + "get_part_by_id")
+    if rep.floor("C13-CUR", 1 if gpid else 0, 1, "Archive::get_part_by_id"):
+        Gc = cgmod.CallGraph(F)
+        bad = []
+        for k in sorted(Gc.reachable([gpid.key])):
+            f2 = F.funcs[k]
+            if f2.crate != "ragc_common":
+                continue
+            for b in f2.blocks:
+                for s_ in b["stmts"]:
+                    if s_["k"] == "assign" and s_["pl"]["p"]:
+                        last = s_["pl"]["p"][-1]
+                        if isinstance(last, dict) and last.get("n") == "cur_id":
+                            bad.append("%s (%s)" % (k.split("::", 1)[-1], site_of(f2, s_)))
+        rep.ob("C13-CUR", "get_part_by_id leaves the sequential read cursor alone (a later get_part continues where the last get_part stopped)", not bad,
+               detail="writes of cur_id reachable from get_part_by_id: %s" % bad[:3] if bad else "no write of cur_id reachable", site="%s:%d" % (gpid.file, gpid.line_lo),
+               key="C13-CUR | get_part_by_id | cursor untouched")
     from rules import c12
     c12.io_rule(F, rep, "C13-IO")        # the container's reads and writes are all-or-error calls
 
